@@ -241,6 +241,23 @@ class SymbolicExpression(Generic[T], ABC):
         if value is not None and hasattr(value, "_child_"):
             value._child_ = self
 
+    def _is_evaluated_as_a_condition_(
+        self, evaluating_parent: Optional[SymbolicExpression]
+    ) -> bool:
+        """
+        :param evaluating_parent: The expression that evaluates this expression right now.
+        :return: Whether this expression is evaluated as a condition, i.e., its value is a truth value.
+        """
+        if evaluating_parent is None:
+            return (
+                isinstance(self._parent_, LogicalOperator)
+                or self is self._conditions_root_
+            )
+        return isinstance(evaluating_parent, LogicalOperator) or (
+            isinstance(evaluating_parent, QueryObjectDescriptor)
+            and evaluating_parent._child_ is self
+        )
+
     @cached_property
     def _conditions_root_(self) -> SymbolicExpression:
         """
@@ -993,19 +1010,15 @@ class Variable(CanBehaveLikeAVariable[T]):
             # The truth value of the bound value only matters when the variable itself is used as a condition, otherwise
             # (e.g., as an operand of a comparison or as a selected variable) a falsy value is a value like any other.
             is_false = False
-            if (
-                isinstance(self._parent_, LogicalOperator)
-                or self is self._conditions_root_
-            ):
+            if self._is_evaluated_as_a_condition_(parent):
                 is_false = not bool(sources[self._id_])
                 self._is_false_ = is_false
             yield OperationResult(sources, is_false, self)
         elif self._domain_:
             # a literal that is used as a condition (e.g., a python bool) is as true as its value
-            is_a_condition = isinstance(self, Literal) and (
-                isinstance(self._parent_, LogicalOperator)
-                or self is self._conditions_root_
-            )
+            is_a_condition = isinstance(
+                self, Literal
+            ) and self._is_evaluated_as_a_condition_(parent)
             for v in self._domain_:
                 yield OperationResult(
                     {**sources, self._id_: HashedValue(v)},
@@ -1165,34 +1178,44 @@ class DomainMapping(CanBehaveLikeAVariable[T], ABC):
 
         self._eval_parent_ = parent
 
+        # The same expression object can be used at several positions (e.g., f = x.flag as a condition and as an operand of
+        # a comparison). Whether its value is a truth value is therefore a property of this evaluation and not of the node.
+        is_a_condition = self._is_evaluated_as_a_condition_(parent)
+
         if self._id_ in sources:
             yield self._build_operation_result_and_update_truth_value_(
-                OperationResult(sources, False, self), sources[self._id_]
+                OperationResult(sources, False, self),
+                sources[self._id_],
+                is_a_condition,
             )
             return
 
         yield from (
             self._build_operation_result_and_update_truth_value_(
-                child_result, mapped_value
+                child_result, mapped_value, is_a_condition
             )
             for child_result in self._child_._evaluate__(sources, parent=self)
             for mapped_value in self._apply_mapping_(child_result[self._child_._id_])
         )
 
     def _build_operation_result_and_update_truth_value_(
-        self, child_result: OperationResult, current_value: Any
+        self,
+        child_result: OperationResult,
+        current_value: Any,
+        is_a_condition: bool,
     ) -> OperationResult:
         """
         Set the current truth value of the operation result, and build the operation result to be yielded.
 
         :param child_result: The current result from the child operation.
         :param current_value: The current value of this operation that is derived from the child result.
+        :param is_a_condition: Whether this expression is evaluated as a condition.
         :return: The operation result.
         """
         # The truth value only matters when the expression itself is used as a condition. It must not be taken from the
         # flag of the node otherwise, the flag can stem from another evaluation in which this expression was a condition.
         is_false = False
-        if isinstance(self._parent_, LogicalOperator) or self is self._conditions_root_:
+        if is_a_condition:
             is_false = not bool(current_value)
             self._is_false_ = is_false
         return OperationResult(
